@@ -20,6 +20,7 @@ limitations under the License.
 package client
 
 import (
+	"bytes"
 	"context"
 	"crypto/ecdsa"
 	"crypto/sha256"
@@ -1172,6 +1173,17 @@ func (c *immuClient) verifiedGet(ctx context.Context, kReq *schema.KeyRequest) (
 		}
 
 		e = database.EncodeReference(kReq.Key, schema.KVMetadataFromProto(ref.Metadata), vEntry.Entry.Key, ref.AtTx)
+	}
+
+	// the returned entry must be the one being proven: requested key, at the proven transaction
+	if vEntry.Entry.ReferencedBy == nil {
+		if !bytes.Equal(vEntry.Entry.Key, kReq.Key) || vEntry.Entry.Tx != vTx {
+			return nil, store.ErrCorruptedData
+		}
+	} else {
+		if !bytes.Equal(vEntry.Entry.ReferencedBy.Key, kReq.Key) || vEntry.Entry.ReferencedBy.Tx != vTx {
+			return nil, store.ErrCorruptedData
+		}
 	}
 
 	if state.TxId <= vTx {
